@@ -943,6 +943,8 @@ func runCase(c *Case) {
 		runRowCase(c)
 	case "batch", "pool":
 		runBatchCase(c)
+	case "overlap":
+		runOverlapStage(rep, &vevid.Flags{Shards: 1})
 	default:
 		vevid.Fatal("unknown stage %q", c.Stage)
 	}
@@ -1021,6 +1023,9 @@ func main() {
 	}
 	if !stop && want("pool") {
 		forEachPoolCase(f.Thorough(), each("pool"))
+	}
+	if !stop && want("overlap") {
+		runOverlapStage(rep, f)
 	}
 	rep.Extra["case_index_space"] = idx
 	rep.Write()
